@@ -29,12 +29,28 @@ theorem step_trace_mono (m m' : M) (h : step m = .inl m') : m.traceL <+: m'.trac
 
 /-- … hence neither does a whole run -/
 theorem run_trace_mono (fuel : Nat) (m : M) : m.traceL <+: (run fuel m).1.traceL := by
-  sorry
+  induction fuel generalizing m with
+  | zero => simp [run]
+  | succ n ih =>
+    simp only [run]
+    cases h : step m with
+    | inl m' => exact (step_trace_mono m m' h).trans (ih m')
+    | inr o => simp
 
 /-- more fuel never changes a finished run -/
 theorem run_mono (fuel k : Nat) (m : M) (h : (run fuel m).2.isOutOfFuel = false) :
     run (fuel + k) m = run fuel m := by
-  sorry
+  induction fuel generalizing m with
+  | zero => simp [run, Outcome.isOutOfFuel] at h
+  | succ n ih =>
+    have e : n + 1 + k = (n + k) + 1 := by omega
+    rw [e]
+    simp only [run] at h ⊢
+    cases hs : step m with
+    | inl m' =>
+      simp only [hs] at h
+      exact ih m' h
+    | inr o => rfl
 
 /-- `step` only looks at `faultAt` to decide whether to inject; before step k the faulty and the
     fault-free machine are in the same state (up to the `faultAt` field). -/
